@@ -59,6 +59,9 @@ func serve(args []string) {
 		c.TCPMuxHTTPConnectPort = hx.FreePort(addr)
 		c.UserConnTimeout = 2
 		c.AllowPorts = nil
+		// the dashboard switches the in-memory statistics (shared maps updated per user connection) on
+		c.WebServer.Addr = addr
+		c.WebServer.Port = hx.FreePort(addr)
 	})
 	if err != nil {
 		fmt.Println("ERR", err)
@@ -504,6 +507,24 @@ func watchdog(s *hx.Server) error {
 	if err != nil || r.Error != "" {
 		return fmt.Errorf("new proxy: %v %v", err, r)
 	}
+	gdone := make(chan error, 1)
+	go func() {
+		gr, gerr := p.NewProxy(&msg.NewProxy{ProxyName: "wdg-" + fmt.Sprint(port), ProxyType: "tcp", RemotePort: 0, Group: "wd-group-" + fmt.Sprint(port%3), GroupKey: "k"})
+		if gerr != nil {
+			gdone <- fmt.Errorf("grouped new proxy: %v", gerr)
+			return
+		}
+		_ = gr
+		gdone <- nil
+	}()
+	select {
+	case gerr := <-gdone:
+		if gerr != nil {
+			return gerr
+		}
+	case <-time.After(4 * time.Second):
+		return fmt.Errorf("a grouped tcp registration got no answer within 4 s (group controller wedged?)")
+	}
 	u, err := net.DialTimeout("tcp", fmt.Sprintf("%s:%d", s.Addr, port), time.Second)
 	if err != nil {
 		return fmt.Errorf("user dial: %v", err)
@@ -608,6 +629,82 @@ func runBarrage(cfg *hx.RunCfg) error {
 			}
 		})
 	}
+	// user traffic: one session with three tcp proxies, each hammered by overlapping short user connections
+	// (statistics of several proxies updated concurrently)
+	wg.Add(1)
+	go func() {
+		defer wg.Done()
+		for ctx.Err() == nil {
+			p, _, err := s.Login(hx.LoginOpts{PoolCount: 0})
+			if err != nil || p == nil {
+				time.Sleep(50 * time.Millisecond)
+				continue
+			}
+			ports := []int{}
+			for k := 0; k < 3; k++ {
+				port := hx.FreePort(s.Addr)
+				if r, err := p.NewProxy(&msg.NewProxy{ProxyName: fmt.Sprintf("ut%d", k), ProxyType: "tcp", RemotePort: port}); err == nil && r.Error == "" {
+					ports = append(ports, port)
+				}
+			}
+			// serve ReqWorkConn by offering work connections that echo nothing and close
+			stop := make(chan struct{})
+			go func() {
+				for {
+					m, err := p.Recv(300 * time.Millisecond)
+					select {
+					case <-stop:
+						return
+					default:
+					}
+					if err != nil {
+						if ne, ok := err.(net.Error); ok && ne.Timeout() {
+							continue
+						}
+						return
+					}
+					if _, ok := m.(*msg.ReqWorkConn); ok {
+						go func() {
+							w, err := p.WorkConn(true)
+							if err != nil {
+								return
+							}
+							var sw msg.StartWorkConn
+							_ = w.SetReadDeadline(time.Now().Add(2 * time.Second))
+							if msg.ReadMsgInto(w, &sw) == nil {
+								_, _ = w.Write([]byte("x"))
+							}
+							time.Sleep(5 * time.Millisecond)
+							w.Close()
+						}()
+					}
+				}
+			}()
+			var uw sync.WaitGroup
+			for round := 0; round < 40 && ctx.Err() == nil; round++ {
+				for _, port := range ports {
+					for k := 0; k < 4; k++ {
+						uw.Add(1)
+						go func(port int) {
+							defer uw.Done()
+							u, err := net.DialTimeout("tcp", fmt.Sprintf("%s:%d", s.Addr, port), 500*time.Millisecond)
+							if err != nil {
+								return
+							}
+							_, _ = u.Write([]byte("hello"))
+							_ = u.SetReadDeadline(time.Now().Add(300 * time.Millisecond))
+							b := make([]byte, 8)
+							_, _ = u.Read(b)
+							u.Close()
+						}(port)
+					}
+				}
+				uw.Wait()
+			}
+			close(stop)
+			p.Close()
+		}
+	}()
 	n := cfg.N
 	for i := 0; i < n; i++ {
 		mk := msgProtos[g.Intn(len(msgProtos))]
